@@ -7,7 +7,7 @@ from sa.astx import NotConst, body_walk, call_attr, call_name, const_eval, dotte
 from sa.selftest import Mutant, Silent
 from sa.source import methods
 from sa.props._lib_j import (asserted_eq, asserted_is, bind_args, catching_handler, edge_asserts, funcs_in_class, is_self_attr,
-                             local_defs, no_exc, node_calls, normal_exits, params, resolve, rsrc)
+                             local_defs, no_exc, node_calls, body_always_entered, run_sections, normal_exits, params, resolve, rsrc)
 
 PROPERTY = "C49"
 TEAM = "_threads/_team.py"
@@ -31,6 +31,7 @@ EXPLANATION = (
     "releases the lock and clears local.working on every exit after acquire; (f) ThreadPool reports each outcome once "
     "(BaseException handler, single onResult call then reset), stop() quits the team before joining every tracked thread, and "
     "the worker limit test is busy + idle >= currentLimit(). Not decided: real thread schedules, behaviour of user callbacks."
+    "Every anchor function is also checked to be entered on every call (no memoising/wrapping decorator, duplicate definition or rebinding). "
 )
 ASSUMPTIONS = [
     "the coordinator's do() runs its argument in mutual exclusion (IExclusiveWorker contract; LockWorker checked separately)",
@@ -83,7 +84,7 @@ def _pop_end(call):
     return None
 
 
-def check(ctx):
+def _s_confinement(ctx, S):
     ctx.mod(TEAM)
     cls = ctx.cls(TEAM, "Team")
     fns = funcs_in_class(cls)
@@ -152,6 +153,8 @@ def check(ctx):
         bad = [n for n in ast.walk(m2.tree) if isinstance(n, ast.Attribute) and (n.attr in (OWNED - {"_pending"}) or n.attr in ("_quitIdlers", "_coordinateThisTask", "_recycleWorker"))]
         ctx.check(not bad, "confinement/no-outside-access", f"twisted/{rel}", "Team's coordinator-owned state is touched from outside _team.py")
 
+
+def _s_dispatch(ctx, S):
     # ---------------- (b) _coordinateThisTask ------------------------------------------------------------
     f = ctx.func(TEAM, "Team._coordinateThisTask")
     g = ctx.cfg(f, exception_is_all=False)
@@ -270,6 +273,8 @@ def check(ctx):
                 ctx.check(w is None, "busy-count/decremented-before-recycle", ctx.construct(qw, "hand-back"),
                           "_recycleWorker (which may decide to quit the coordinator when _busyCount == 0) runs before the count is decremented")
 
+
+def _s_recycle(ctx, S):
     # ---------------- _recycleWorker -------------------------------------------------------------------------
     f = ctx.func(TEAM, "Team._recycleWorker")
     g = ctx.cfg(f)
@@ -315,6 +320,8 @@ def check(ctx):
     ctx.check(bool(qi) and all(g.guarded(x, lambda e: src(e) == "self._shouldQuitCoordinator", True) for x in qi), "quit/recycle-quits-when-finishing", q,
               "after quit(), a worker that finishes its task is not stopped (no _quitIdlers under _shouldQuitCoordinator)")
 
+
+def _s_quit_idlers(ctx, S):
     # ---------------- _quitIdlers ----------------------------------------------------------------------------
     f = ctx.func(TEAM, "Team._quitIdlers")
     g = ctx.cfg(f)
@@ -353,6 +360,8 @@ def check(ctx):
              (frozenset({("len(self._idle)", 1), ("self._busyCount", 1)}), 0) for d in dflt)
     ctx.check(ok, "quit/all-workers-by-default", q, "shrink(None) / quit does not cover idle + busy workers")
 
+
+def _s_entry_points(ctx, S):
     # ---------------- do / grow / shrink / quit ---------------------------------------------------------------
     for name in ("do", "grow", "shrink"):
         f = ctx.func(TEAM, "Team." + name)
@@ -382,6 +391,11 @@ def check(ctx):
             ctx.check(ok and "_createWorker" in rsrc(c.args[0], fn), "grow/only-real-workers", ctx.construct(QT + ".grow", c),
                       "grow() recycles a worker that may be None (limit reached) or not freshly created")
         ctx.check(bool(cw) and bool(rc), "grow/only-real-workers", QT + ".grow", "grow() does not create and recycle workers")
+
+
+def _s_team_quit(ctx, S):
+    fns = funcs_in_class(ctx.cls(TEAM, "Team"))
+    handed = {id(f): _handed_to(f, _is_coord_do) for q, f in fns}
     f = ctx.func(TEAM, "Team.quit")
     g = ctx.cfg(f)
     q = QT + ".quit"
@@ -408,11 +422,15 @@ def check(ctx):
                 ctx.check(q_.startswith("Team.quit."), "quit/flag-written-only-by-quit", ctx.construct("twisted._threads._team." + q_, n),
                           "_shouldQuitCoordinator is written outside quit()")
 
+
+def _s_statistics(ctx, S):
     # Team.statistics argument order
     f = ctx.func(TEAM, "Team.statistics")
     st = ctx.func(TEAM, "Statistics.__init__")
     sc = [c for c in ast.walk(f) if isinstance(c, ast.Call) and call_name(c) == "Statistics"]
-    ctx.need(sc, "Statistics(...) in Team.statistics")
+    if not sc:
+        ctx.violation("statistics/slots", QT + ".statistics", "statistics() does not build a Statistics(idle, busy, backlog): the worker limit test reads garbage")
+        return
     b = {k: src(v) for k, v in bind_args(sc[0], st, skip_self=True).items()}
     ctx.check(b == {"idleWorkerCount": "len(self._idle)", "busyWorkerCount": "self._busyCount", "backloggedWorkCount": "len(self._pending)"},
               "statistics/slots", QT + ".statistics", f"statistics() reports the counters in the wrong slots: {b}")
@@ -420,6 +438,8 @@ def check(ctx):
     ctx.check(all(sa.get("self." + k) == k for k in ("idleWorkerCount", "busyWorkerCount", "backloggedWorkCount")), "statistics/slots",
               "twisted._threads._team.Statistics.__init__", "Statistics stores its arguments under the wrong names")
 
+
+def _s_quit_flag(ctx, S):
     # ---------------- Quit flag ---------------------------------------------------------------------------------
     f = ctx.func(CONV, "Quit.set")
     g = ctx.cfg(f)
@@ -434,13 +454,17 @@ def check(ctx):
               g.path([g.entry], [g.exit], edge_ok=lambda a, b, l: not (src(g.node(a).ast) == "self.isSet" and l == "F") and l != "exc") is None,
               "quit-flag/check-raises-when-set", "twisted._threads._convenience.Quit.check", "Quit.check does not raise AlreadyQuit exactly when the flag is set")
 
+
+def _s_workers(ctx, S):
     # ---------------- workers: check flag before queueing; FIFO ----------------------------------------------------
     def flag_then_queue(rel, qual, flagcall, queue_pred, label, fails):
         f = ctx.func(rel, qual)
         g = ctx.cfg(f)
         a = [nid for nid, c in node_calls(g, lambda c: call_name(c) == flagcall)]
         b = [nid for nid, c in node_calls(g, queue_pred)]
-        ctx.need(b, f"queueing call in {qual}")
+        if not b:
+            ctx.violation(label, "twisted." + rel[:-3].replace("/", ".") + "." + qual, f"{qual} never queues anything: " + fails)
+            return f, g
         w = g.must_precede(a, b, exc=False)
         ctx.check(bool(a) and w is None, label, "twisted." + rel[:-3].replace("/", ".") + "." + qual, fails, witness=g.describe(w))
         return f, g
@@ -473,6 +497,8 @@ def check(ctx):
     ctx.check(ends == ["first"] and peeks in (["0"], []), "fifo/memory-worker", "twisted._threads._memory.createMemoryWorker.perform",
               "MemoryWorker performs work from the wrong end of its queue (or peeks at another element than it pops)")
 
+
+def _s_lockworker(ctx, S):
     # ---------------- (e) LockWorker.do -----------------------------------------------------------------------------
     f = ctx.func(TW, "LockWorker.do")
     g = ctx.cfg(f)
@@ -483,7 +509,10 @@ def check(ctx):
     acq = [nid for nid, c in node_calls(g, lambda c: call_name(c) == lockn + ".acquire")]
     rel_ = [nid for nid, c in node_calls(g, lambda c: call_name(c) == lockn + ".release")]
     clr = g.ids(lambda n: n.kind == "stmt" and isinstance(n.ast, ast.Assign) and any(src(t) == localn + ".working" for t in n.ast.targets) and src(n.ast.value) == "None")
-    ctx.need(acq, "lock.acquire() in LockWorker.do")
+    if not acq:
+        ctx.violation("lockworker/acquires-lock", q, "LockWorker.do never acquires its lock: coordinator work runs without mutual exclusion (two threads update the "
+                      "team's counters at once)")
+        return
     cleanup = set(acq) | set(rel_) | set(clr)      # acquire/release/clear themselves are assumed not to raise
     ok_e = lambda a, b, l: not (l == "exc" and a in cleanup)
     w = g.path(acq, {g.exit, g.raise_exit}, avoid=rel_, edge_ok=ok_e, strict=True)
@@ -522,13 +551,17 @@ def check(ctx):
               all(g.guarded(s, lambda e: True, None) and any((a := asserted_is(t, lab)) is not None and a[2] and src(a[0]) == wname for t, lab in edge_asserts(g, s)) for s in shared),
               "lockworker/reentrancy-marker", q, "local.working is not published (under `working is None`) before the lock is taken: re-entrant do() would dead-lock")
 
+
+def _s_threadpool(ctx, S):
     # ---------------- (f) ThreadPool ---------------------------------------------------------------------------------
     f = ctx.func(TP, "ThreadPool.callInThreadWithCallback")
     g = ctx.cfg(f)
     q = "twisted.python.threadpool.ThreadPool.callInThreadWithCallback"
     inner = [x for x in walk_local(f) if isinstance(x, ast.FunctionDef)]
     sub = [(nid, c) for nid, c in node_calls(g, lambda c: call_name(c) == "self._team.do")]
-    ctx.need(inner and sub, "inContext and self._team.do(...) in callInThreadWithCallback")
+    if not sub:
+        ctx.violation("threadpool/submitted-unless-joined", q, "callInThreadWithCallback never hands the call to self._team.do: it is never run and never reported")
+        return
     work = next((x for x in inner if any(c.args and src(c.args[0]) == x.name for _, c in sub)), None)
     ctx.need(work, "the function handed to self._team.do")
     for nid, c in sub:
@@ -573,6 +606,8 @@ def check(ctx):
         w = gw.must_precede(ts, setok, exc=False)
         ctx.check(bool(setok) and w is None, "threadpool/outcome-pairing", ctx.construct(qw, "ok = True"), "success is recorded before the function has returned")
 
+
+def _s_threadpool_stop(ctx, S):
     f = ctx.func(TP, "ThreadPool.stop")
     g = ctx.cfg(f)
     q = "twisted.python.threadpool.ThreadPool.stop"
@@ -593,9 +628,15 @@ def check(ctx):
     ctx.check(w2 is None, "threadpool/joins-every-thread", q, "stop() can return without joining the threads", witness=g.describe(w2))
     jn = g.ids(lambda n: n.kind == "stmt" and isinstance(n.ast, ast.Assign) and any(is_self_attr(t, "joined") for t in n.ast.targets) and src(n.ast.value) == "True")
     ctx.check(bool(jn) and g.must_precede(jn, quits, exc=False) is None, "threadpool/joined-before-quit", q, "stop() does not mark the pool joined before quitting the team")
+
+
+def _s_threadpool_init(ctx, S):
     fi = ctx.func(TP, "ThreadPool.__init__")
     tf = [x for x in walk_local(fi) if isinstance(x, ast.FunctionDef) and x is not fi and any(isinstance(c, ast.Call) and call_name(c) == "self.threadFactory" for c in ast.walk(x))]
-    ctx.need(tf, "trackingThreadFactory in ThreadPool.__init__")
+    if not tf:
+        ctx.violation("threadpool/threads-tracked", "twisted.python.threadpool.ThreadPool.__init__", "no thread factory that records created threads in self.threads: "
+                      "stop() cannot wait for them")
+        return
     gt = ctx.cfg(tf[0])
     apps = [(nid, c) for nid, c in node_calls(gt, lambda c: call_name(c) == "self.threads.append")]
     rets = [x for x in normal_exits(gt) if isinstance(gt.node(x).ast, ast.Return)]
@@ -607,7 +648,9 @@ def check(ctx):
     ctx.check(bool(pc) and len(pc[0].args) == 2 and src(pc[0].args[1]) == tf[0].name, "threadpool/threads-tracked",
               "twisted.python.threadpool.ThreadPool.__init__ | self._pool(currentLimit, trackingThreadFactory)", "the pool is not built with the tracking thread factory")
     lim = [x for x in walk_local(fi) if isinstance(x, ast.FunctionDef) and x is not fi and pc and src(pc[0].args[0]) == x.name]
-    ctx.need(lim, "currentLimit in ThreadPool.__init__")
+    if not lim:
+        ctx.violation("limit/current-limit", "twisted.python.threadpool.ThreadPool.__init__", "the pool is not given a local limit function (0 when not started, else self.max)")
+        return
     gl = ctx.cfg(lim[0])
     okl = True
     for r in normal_exits(gl):
@@ -617,11 +660,15 @@ def check(ctx):
         okl = okl and ((v == "0" and started == ["F"]) or (v == "self.max" and started == ["T"]))
     ctx.check(okl, "limit/current-limit", "twisted.python.threadpool.ThreadPool.__init__.currentLimit", "the limit is not (0 when not started, else self.max)")
 
+
+def _s_limit(ctx, S):
     f = ctx.func(POOL, "pool.limitedWorkerCreator")
     g = ctx.cfg(f)
     q = "twisted._threads._pool.pool.limitedWorkerCreator"
     creates = [x for x in normal_exits(g) if isinstance(g.node(x).ast, ast.Return) and g.node(x).ast.value is not None and "ThreadWorker(" in src(g.node(x).ast.value)]
-    ctx.need(creates, "return ThreadWorker(...) in limitedWorkerCreator")
+    if not creates:
+        ctx.violation("limit/create-only-below-limit", q, "limitedWorkerCreator never returns a new ThreadWorker: no task can ever run")
+        return
     lim_name = params(ctx.func(POOL, "pool"))[0]
     for x in creates:
         forms = [lincmp(resolve(t, f), negate=(lab == "T")) for t, lab in edge_asserts(g, x)]   # reject condition
@@ -649,6 +696,23 @@ def check(ctx):
     kw = {k.arg: src(k.value) for k in tc[0].keywords}
     ctx.check(kw.get("coordinator", "").startswith("LockWorker(Lock()") and kw.get("createWorker") == "limitedWorkerCreator", "limit/team-wiring", "twisted._threads._pool.pool | Team(...)",
               "the team is not built with a fresh LockWorker coordinator and the limited worker creator")
+
+
+def check(ctx):
+    run_sections(ctx, [("confinement", _s_confinement), ("dispatch", _s_dispatch), ("recycle", _s_recycle), ("quitIdlers", _s_quit_idlers),
+                       ("entry-points", _s_entry_points), ("Team.quit", _s_team_quit), ("statistics", _s_statistics), ("quit-flag", _s_quit_flag),
+                       ("workers", _s_workers), ("LockWorker", _s_lockworker), ("ThreadPool.call", _s_threadpool), ("ThreadPool.stop", _s_threadpool_stop),
+                       ("ThreadPool.init", _s_threadpool_init), ("worker-limit", _s_limit), ("body-entered", _s_body)])
+
+
+def _s_body(ctx, S):
+    why = "the ownership / ordering rules above reason about this body; a memoising or wrapping decorator lets a call bypass it"
+    body_always_entered(ctx, TEAM, ["Team." + m for m in ("do", "grow", "shrink", "quit", "statistics", "_quitIdlers", "_coordinateThisTask", "_recycleWorker")],
+                        "anchor/body-entered-on-every-call", "twisted._threads._team", why)
+    body_always_entered(ctx, TW, ["ThreadWorker.do", "ThreadWorker.quit", "LockWorker.do", "LockWorker.quit"], "anchor/body-entered-on-every-call", "twisted._threads._threadworker", why)
+    body_always_entered(ctx, CONV, ["Quit.set", "Quit.check"], "anchor/body-entered-on-every-call", "twisted._threads._convenience", why)
+    body_always_entered(ctx, TP, ["ThreadPool.callInThreadWithCallback", "ThreadPool.stop"], "anchor/body-entered-on-every-call", "twisted.python.threadpool", why)
+    body_always_entered(ctx, POOL, ["pool", "pool.limitedWorkerCreator"], "anchor/body-entered-on-every-call", "twisted._threads._pool", why)
 
 
 def _parents_until(node, stop):
